@@ -64,6 +64,13 @@ theorem stmt_inv (d : Drv) (h : LogInv d) : LogInv d.stmt.2 := by
       · unfold LogInv at *; simpa [hc] using h
       · unfold LogInv at *; simpa [hc] using h
 
+theorem next_inv (d : Drv) (h : LogInv d) : LogInv d.next.2 := by
+  unfold Drv.next Drv.prim
+  simp only []
+  split
+  · cases hc : d.cur <;> simp_all [LogInv]
+  · exact h
+
 theorem scan_inv (d : Drv) (h : LogInv d) : LogInv d.scan.2 := by
   unfold Drv.scan Drv.prim
   simp only []
@@ -91,7 +98,7 @@ theorem rollback_inv (d : Drv) (h : LogInv d) : LogInv d.rollback := by
   | none => simpa [hc] using h
   | some t =>
     unfold LogInv at *
-    simp [scanLog_append, h, hc, scanLog]
+    simp [scanLog_append, h, hc, scanLog, Drv.prim]
 
 theorem pending_inv (d : Drv) (f : PgTxn → PgTxn) (hf : ∀ t, (f t).id = t.id) (h : LogInv d) :
     LogInv { d with cur := d.cur.map f } := by
@@ -154,8 +161,11 @@ theorem query_inv (p : Pg) (k : Bytes) (h : LogInv p.drv) : LogInv (p.query k).2
   · exact h1
   · split
     · exact h1
-    · have h2 := scan_inv _ h1
-      split <;> exact h2
+    · have hn := next_inv _ h1
+      split
+      · exact hn
+      · have h2 := scan_inv _ hn
+        split <;> exact h2
 
 theorem put_inv (p : Pg) (k v : Bytes) (h : LogInv p.drv) : LogInv (p.put k v).2.drv := by
   unfold Pg.put
